@@ -50,8 +50,16 @@ type Contract struct {
 	NoVerify    bool // repo contract assumed but body not verified (listed in evidence)
 	Props       []string
 	RecGroup    string
+	Monitors    []Monitor
 	Dead        []string // program points that are unreachable by design (e.g. under a trusted spec)
 	Forbid      []string // callees that must not be called (directly or in inlined code)
+}
+
+type Monitor struct {
+	Ghost string
+	Key   ast.Expr
+	Val   ast.Expr
+	Text  string
 }
 
 type GhostDecl struct {
@@ -322,6 +330,26 @@ func parseClause(c *Contract, word, rest, src string) error {
 		c.Props = strings.Fields(rest)
 	case "recgroup":
 		c.RecGroup = strings.TrimSpace(rest)
+	case "monitor":
+		// monitor g[k] := expr   -- a specification-only record of what the call concluded
+		i := strings.Index(rest, ":=")
+		if i < 0 {
+			return fmt.Errorf("bad monitor clause")
+		}
+		lhs := strings.TrimSpace(rest[:i])
+		j := strings.IndexByte(lhs, '[')
+		if j < 0 || !strings.HasSuffix(lhs, "]") {
+			return fmt.Errorf("bad monitor target")
+		}
+		k, err := parseSpecExpr(lhs[j+1 : len(lhs)-1])
+		if err != nil {
+			return err
+		}
+		v, err := parseSpecExpr(rest[i+2:])
+		if err != nil {
+			return err
+		}
+		c.Monitors = append(c.Monitors, Monitor{Ghost: strings.TrimSpace(lhs[:j]), Key: k, Val: v, Text: rest})
 	case "dead":
 		c.Dead = append(c.Dead, strings.TrimSpace(rest))
 	case "forbid":
